@@ -103,6 +103,8 @@ def run(prog, R):
                     R.ob("C09.4-subroutine-signature", "SubroutineDef{num_params <- typed params, return_type <- return signature | Void}", ok, s2s.at, s_[:200])
     import C07
     C07.return_type_scope(prog, R, "C09.4-return-type-scope")
+    R.premises(prog, "C09.2-literal-value-premise", ["C10:C10.2-", "C10:C10.3-", "C10:C10.4-digit-string"],
+               "a literal width / register length reaches the symbol table through IntNumber::value(): its radix, digit string and sibling agreement are C10's obligations")
     # ---- C09.2 no unchecked narrowing cast
     order = {"u8": 8, "u16": 16, "u32": 32, "u64": 64, "usize": 64, "u128": 128, "i8": 8, "i16": 16, "i32": 32, "i64": 64, "isize": 64, "i128": 128}
     narrow, widen = [], 0
@@ -222,6 +224,13 @@ def run(prog, R):
                     if c[0].endswith("SymbolTable::new_binding"):
                         ok = "Type::Gate" in show(deep_strip(c[1][2]))
             R.ob("C09.4-stdgates", "bound as Type::Gate(n_cl, n_qu)", ok, cl.at, "")
+        # every gate of the table is bound whenever the function is called: one unconditional path through the
+        # flat_map/filter chain (no early return that skips the library), and the filter closure binds on every path
+        psg = [p for p in SymExec(prog, sg).paths() if "__diverged__" not in p.env]
+        straight = len(psg) == 1 and not any(c[0] == "switch" for c in psg[0].conds) and "flat_map" in show(deep_strip(psg[0].env.get(0))) and "collect" in show(deep_strip(psg[0].env.get(0)))
+        allbind = cl is not None and all(any(c[0].endswith("SymbolTable::new_binding") for c in p.calls) for p in SymExec(prog, cl).paths() if "__diverged__" not in p.env)
+        R.ob("C09.4-stdgates", "every gate of the table is bound on every call (no conditional skip)", straight and allbind, sg.at,
+             f"{len(psg)} returning path(s) of standard_library_gates, conditions on them: {sum(1 for p in psg for c in p.conds if c[0] == 'switch')}; filter closure binds on every path: {allbind}")
     gc = prog.body("oq3_semantics::symbols::SymbolTable::gates::{closure#0}")
     if gc:
         ps = [p for p in SymExec(prog, gc).paths() if "__diverged__" not in p.env]
